@@ -41,6 +41,18 @@ def items(tier, seed):
                          job_open={'dur': [0, 2], 'cdelay': [1]},
                          top_open={'window': [1]},
                          nest_open={'critical': [True]}, k=1, bound=2)
+    # a critical nested scheduler failing through its own timeout, or
+    # through one of its jobs, while it runs a chain of jobs
+    yield from spaces.mk(
+        ['nest22', 'nest32'], force='mods',
+        fargs={'alts': [[('n', 'critical', True), ('n', 'timeout', 1),
+                         ('x', 'dur', 3)],
+                        [('n', 'critical', True), ('n', 'timeout', 1),
+                         ('x', 'dur', 3), ('x', 'critical', True)],
+                        [('n', 'critical', True), ('y', 'out', 'raise'),
+                         ('y', 'critical', True), ('y', 'dur', 2)]]},
+        job_open={'dur': [0, 2, 3], 'cdelay': [1]}, top_open={'window': [1]},
+        nest_open={'sdt': [0]}, k=1, bound=2)
     yield from spaces.mk(['flat4'], th, force='each_job',
                          fargs={'mods': crit['mods']},
                          job_open={'dur': [0, 2], 'cdelay': [1]},
